@@ -159,7 +159,7 @@ def direct_calls(scn, viol, stats, check_fitness=False):
                 processor=Processor(detector=det, pipeline=pipe), variables=cal.parameters, readout=cal.readout, simulation_output=cal.result_type,
                 generations=cal.algorithm.generations, population_size=cal.algorithm.population_size, fitness_func=cal.fitness_function, file_path=None,
                 target_filenames=cal.target_data_path, target_fit_range=to_fit_range(cal.target_fit_range), out_fit_range=FitRange3D.from_sequence(cal.result_fit_range),
-                input_arguments=cal.result_input_arguments, weights=cal.weights, weights_from_file=cal.weights_from_file, with_inherited_coords=True,
+                input_arguments=cal.result_input_arguments, weights=cal.weights, weights_from_file=cal.weights_from_file, with_inherited_coords=True, pipeline_seed=cal.pipeline_seed,
             )
         except Exception as exc:  # noqa: BLE001
             viol.append({"clause": "C10.problem", "signature": f"C10.problem-construction-raises:{type(exc).__name__}", "detail": repr(exc)[:300]})
